@@ -140,10 +140,24 @@ def substitute(node: ast.AST, mapping: Dict[str, ast.AST]) -> ast.AST:
 
 
 def single_return_expr(func: ast.FunctionDef) -> ast.AST:
+    """The value of a predicate function as one expression. Accepted shapes: a single
+    `return e`, or a cascade of guard clauses `if c: return a` (optionally with an
+    `else: return b`) ending with `return z`, folded into `a if c else (...)`."""
     body = [s for s in func.body if not (isinstance(s, ast.Expr) and isinstance(s.value, ast.Constant))]
-    if len(body) == 1 and isinstance(body[0], ast.Return) and body[0].value is not None:
-        return body[0].value
-    raise Unknown(f"{func.name} is not a single-return predicate")
+
+    def fold(stmts):
+        if not stmts:
+            raise Unknown(f"{func.name} can fall off its end")
+        s0 = stmts[0]
+        if isinstance(s0, ast.Return) and s0.value is not None:
+            return s0.value
+        if isinstance(s0, ast.If):
+            then = fold(s0.body)
+            rest = fold(s0.orelse) if s0.orelse else fold(stmts[1:])
+            return ast.IfExp(test=s0.test, body=then, orelse=rest)
+        raise Unknown(f"{func.name} is not a predicate made of guard clauses and returns (`{norm(s0)[:40]}`)")
+
+    return fold(body)
 
 
 def show(val: Dict[str, bool], only_true: bool = True) -> str:
